@@ -160,6 +160,11 @@ fn frame_with(st: &Step, version: Option<i64>, range_lengths: Option<Vec<Option<
             td["version"] = json!(v);
         }
     }
+    if st.sid {
+        if let Some(id) = body.get("id").and_then(Value::as_i64) {
+            body["id"] = json!(id.to_string());
+        }
+    }
     if let Some(ls) = range_lengths {
         if let Some(changes) = body.get_mut("params").and_then(|p| p.get_mut("contentChanges")).and_then(|c| c.as_array_mut()) {
             for (c, l) in changes.iter_mut().zip(ls) {
@@ -349,7 +354,11 @@ fn classify(v: &Value) -> Result<RxMsg, String> {
         return Err("missing jsonrpc:\"2.0\"".into());
     }
     if let Some(id) = obj.get("id") {
-        let id = id.as_i64().ok_or("response id is not an integer")?;
+        // integer, or the decimal string a client with string ids gets back
+        let id = id
+            .as_i64()
+            .or_else(|| id.as_str().and_then(|t| t.parse::<i64>().ok()))
+            .ok_or("response id is not an integer")?;
         let has_result = obj.contains_key("result");
         let has_error = obj.contains_key("error");
         if has_result == has_error {
